@@ -4,6 +4,7 @@ import (
 	"encoding/json"
 	"fmt"
 	"path/filepath"
+	"time"
 
 	"verifsim/job"
 )
@@ -54,6 +55,10 @@ func selftest(seed uint64, prop, tier string) bool {
 		masked string
 	}
 	outs := make([]out, len(runs)*repeats)
+	// some corpus directories take tens of seconds on a loaded machine; a slow self-test run is not a finding
+	saved := nodeTimeout
+	nodeTimeout = 10 * time.Minute
+	defer func() { nodeTimeout = saved }()
 	parallel(len(outs), workers, func(k int) {
 		res := execute(&runs[k/repeats])
 		if res.Infra != "" || res.Trace == nil {
